@@ -65,7 +65,20 @@ def eval_lines(requests, nd=False):
     for name in names:
         if not todo:
             break
-        raw = vlib.run_harness(b[name], ['eval'], stdin='\n'.join(requests[i] for i in todo) + '\n')
+        raw = []
+        pending = list(todo)
+        while pending:
+            # the implementation may abort (assertion / heap corruption) on one request: keep the replies
+            # produced before it, mark that request CRASH, and go on with the rest in a fresh process
+            try:
+                raw += vlib.run_harness(b[name], ['eval'], stdin='\n'.join(requests[i] for i in pending) + '\n')
+                pending = []
+            except vlib.HarnessRunError as e:
+                done = [l for l in getattr(e, 'out_lines', None) or (e.out.splitlines() if isinstance(e.out, str) else list(e.out or []))]
+                done = done[:max(0, len(pending) - 1)]
+                raw += done
+                raw.append(f'CRASH rc={e.rc} ' + (e.err or '').strip().splitlines()[-1][:200] if (e.err or '').strip() else f'CRASH rc={e.rc}')
+                pending = pending[len(done) + 1:]
         nxt = []
         for i, r in zip(todo, raw):
             if r.startswith('SKIP'):
@@ -250,9 +263,17 @@ def zero_word(w, prec):
 
 def check_requests(reqs, pats, stats, findings, broken, samples, dense_lines, nd=False):
     impl = eval_lines(reqs, nd=nd)
-    live = [(q, r) for q, r in zip(reqs, impl) if r is not None and not r.startswith(('BAD', 'PRECOND', 'SKIP'))]
+    live = [(q, r) for q, r in zip(reqs, impl) if r is not None and not r.startswith(('BAD', 'PRECOND', 'SKIP', 'CRASH'))]
     for q, r in zip(reqs, impl):
-        if r is None or r.startswith('BAD'):
+        if r is not None and r.startswith('CRASH'):
+            try:
+                routine, g, prec, rows, cols, i0, host, a = parse_request(q)
+                key = {'routine': routine, 'group': g, 'prec': prec, 'stratum': q.split(' # ')[1] if ' # ' in q else '', 'kind': 'crash'}
+            except Exception:
+                key = {'kind': 'crash'}
+            findings.append({'property': 'C19', 'key': key, 'err': None, 'tol': 0,
+                             'what': 'the sparse routine aborted the process on this request (' + r[:220] + ')', 'line': q})
+        elif r is None or r.startswith('BAD'):
             broken.append({'what': 'correspondence', 'name': 'sparse harness rejects a generated request', 'first': {'line': q[:3000], 'reply': (r or 'none')[:100]}})
         elif r.startswith('PRECOND'):
             stats['precond_skipped'] += 1
